@@ -122,7 +122,11 @@ class _PureModule:
 
 
 import codecs as _codecs_mod
+import bisect as _bisect_mod
+_FUNCTOOLS = _PureModule("functools", {"partial": _PARTIAL})
+_BISECT = _PureModule("bisect", {k: getattr(_bisect_mod, k) for k in ("bisect", "bisect_left", "bisect_right", "insort", "insort_left", "insort_right")})
 _CODECS = _PureModule("codecs", {"getdecoder": _codecs_mod.getdecoder, "getencoder": _codecs_mod.getencoder,
+                                 "getincrementaldecoder": _codecs_mod.getincrementaldecoder, "getincrementalencoder": _codecs_mod.getincrementalencoder,
                                  "lookup": _codecs_mod.lookup})
 import re as _re_mod
 import sys as _sys_mod
@@ -292,7 +296,7 @@ class Folder:
                 for a in st.names:
                     nm = a.asname or a.name.split(".")[0]
                     env[nm] = itertools if a.name == "itertools" else _CODECS if a.name == "codecs" else \
-                        _SYS if a.name == "sys" else _COPY if a.name == "copy" else _RE if a.name == "re" else _ERRNO if a.name == "errno" else _REPRLIB if a.name == "reprlib" else _STRING if a.name == "string" else _UNICODEDATA if a.name == "unicodedata" else \
+                        _SYS if a.name == "sys" else _COPY if a.name == "copy" else _BISECT if a.name == "bisect" else _FUNCTOOLS if a.name == "functools" else _RE if a.name == "re" else _ERRNO if a.name == "errno" else _REPRLIB if a.name == "reprlib" else _STRING if a.name == "string" else _UNICODEDATA if a.name == "unicodedata" else \
                         Opaque("module %s" % a.name)
             elif isinstance(st, (ast.Assign, ast.AnnAssign)):
                 if getattr(st, "value", None) is None:
@@ -415,6 +419,8 @@ class Folder:
             if attr in v.funcs:
                 return v.funcs[attr]
             raise Unknown("attribute %s of %r" % (attr, v))
+        if isinstance(v, (_codecs_mod.IncrementalDecoder, _codecs_mod.IncrementalEncoder)) and attr in ("decode", "encode", "reset", "getstate", "setstate"):
+            return getattr(v, attr)      # a stateful codec object: its state lives on, as in the running program
         if isinstance(v, ExcName):
             if attr in v.attrs:
                 return v.attrs[attr]
@@ -667,7 +673,12 @@ class Folder:
                         kw.update(E(k.value))
                     else:
                         kw[k.arg] = E(k.value)
-                return Partial(fname, args, kw)
+                pr = Partial(fname, args, kw)
+                try:
+                    pr.target = E(n.args[0]) if n.args else None
+                except Unknown:
+                    pr.target = None
+                return pr
             args, kw = self.call_args(n, env)
             return self.v_call(f, args, kw, n, env)
         if isinstance(n, ast.NamedExpr):
